@@ -9,8 +9,8 @@
 EXTENDS Clock, Bitwise, TLC, IOUtils, Json, Sequences
 
 Recs == ndJsonDeserialize(IOEnv.TRACE)
-VARIABLES k, d, l            \* d: the DMA engine's progress as last seen ([dact, doff])
-NoDma == [dact |-> 0, doff |-> 0]
+VARIABLES k, d, l            \* d: what the three observers of delivered time showed last: DMA progress, divider, LCD position
+NoDma == [dact |-> 0, doff |-> 0, div |-> 0, q |-> 144 * 456]
 Init == k = Zero /\ d = NoDma /\ l = 1
 IsEvent(e) == l <= Len(Recs) /\ Recs[l].ev = e /\ l' = l + 1
 Frame == 70224
@@ -21,7 +21,20 @@ Delivered(rec, n) == rec.clk[1] = n /\ rec.clk[2] = n /\ rec.clk[3] = n
 
 \* the time of a step reaches the DMA engine too: a transfer in flight (or started by a write to 0xFF46 during the step,
 \* which restarts it from offset 0) has advanced by exactly the machine cycles delivered, one byte each, up to 160
-Seen(rec) == [dact |-> rec.o.dact, doff |-> rec.o.doff]
+\* the three observers are consulted when PACE is set in the environment (C09's runs); other properties that use this
+\* module for the cycle accounting alone (C07: the five cycles of a dispatch) leave the devices out of their verdict
+Pace == "PACE" \in DOMAIN IOEnv
+Seen(rec) == [dact |-> rec.o.dact, doff |-> rec.o.doff, div |-> rec.o.div, q |-> rec.o.q]
+\* ... and the divider and the LCD position have moved by exactly the clocks delivered (a write to DIV clears the divider:
+\* before the catch-up when an instruction made it, after it when a dispatch push landed there)
+ClocksKeptPace(rec, disp) ==
+  LET nw == Len(rec.wr)
+      pre == IF disp /\ nw >= 2 THEN nw - 2 ELSE nw
+      cleared == \E i \in 1..pre : rec.wr[i][1] = 65284
+      pushed == \E i \in (pre + 1)..nw : rec.wr[i][1] = 65284
+      d0 == IF cleared THEN 0 ELSE d.div
+  IN /\ rec.o.div = (IF pushed THEN 0 ELSE (d0 + rec.clk[1]) % 65536)
+     /\ rec.o.q = (d.q + rec.clk[2]) % Frame
 DmaKeptPace(rec, disp) ==
   LET n == rec.clk[3] \div 4
       nw == Len(rec.wr)
@@ -48,7 +61,7 @@ RunningStep ==
         /\ rec.o.pend \in {0, 5}                          \* five cycles for a dispatch, delivered next step
         /\ k' = RunStep(k, c, disp) /\ Conserved(k')
         /\ Sampled(rec.o)
-        /\ DmaKeptPace(rec, disp) /\ d' = Seen(rec)
+        /\ (Pace => DmaKeptPace(rec, disp) /\ ClocksKeptPace(rec, disp)) /\ d' = Seen(rec)
 HaltedStep ==
   /\ IsEvent("step") /\ Recs[l].k = "halt"
   /\ LET rec == Recs[l]
@@ -57,7 +70,7 @@ HaltedStep ==
         /\ rec.o.pend \in {k.pend, k.pend + 5}
         /\ k' = HaltStep(k, disp) /\ Conserved(k')
         /\ Sampled(rec.o)
-        /\ DmaKeptPace(rec, disp) /\ d' = Seen(rec)
+        /\ (Pace => DmaKeptPace(rec, disp) /\ ClocksKeptPace(rec, disp)) /\ d' = Seen(rec)
 \* stepping to the next frame: ends just after a vertical blanking period, within two frames plus one step
 FrameStep ==
   /\ IsEvent("frame")
